@@ -114,7 +114,11 @@ func c15SessionPlan(seed int64, full bool) []c15Session {
 				}
 				continue
 			}
-			for _, k := range []c15TokKind{bad[0], bad[1], other[rng.Intn(len(other))]} {
+			k2 := bad[1]
+			if rng.Intn(2) == 0 {
+				k2 = other[rng.Intn(len(other))]
+			}
+			for _, k := range []c15TokKind{bad[0], k2} {
 				add(conn, "valid,bad", c15MkStep(pick(c15NonTerminal), valid), c15MkStep(second, k))
 			}
 		}
@@ -126,7 +130,9 @@ func c15SessionPlan(seed int64, full bool) []c15Session {
 				}
 				continue
 			}
-			add(conn, "bad,valid", c15MkStep(first, pickBad()), c15MkStep(pick(c15Protected), valid))
+			if rng.Intn(5) < 3 {
+				add(conn, "bad,valid", c15MkStep(first, pickBad()), c15MkStep(pick(c15Protected), valid))
+			}
 		}
 		// three commands
 		n3 := 1
@@ -148,42 +154,57 @@ func c15SessionPlan(seed int64, full bool) []c15Session {
 	return out
 }
 
-var c15TmpT [5]atomic.Int64
-
 const c15SessBase = 2 << 20 // cell indices of session steps (seeds of their units and tokens)
 
 // runSession executes one session and returns one observation per step that was reached.
 // broken: the connection ended before the last step (after a step that is reported by itself).
+// The unit of a step that has to be refused may come from the arena's pool of verifiably untouched units
+// (quick tier) and goes back there if the step left it untouched; every other step gets a fresh unit.
 func (a *c15Arena) runSession(s c15Session) (obs []*c15Obs, broken string) {
 	cells := make([]c15Cell, len(s.Steps))
 	targets := make([]*c15Target, len(s.Steps))
-	t0 := time.Now()
 	defer func() {
-		tc := time.Now()
-		for _, t := range targets {
-			if t != nil {
+		for i, t := range targets {
+			switch {
+			case t == nil:
+			case i < len(obs):
+				a.putTarget(t, obs[i], s.Steps[i].Exp == c15MustNot)
+			case a.reuse && s.Steps[i].Exp == c15MustNot && len(t.effects(nil)) == 0:
+				// never used by this session: back to the pool as it came
+				a.poolMu.Lock()
+				a.pool[t.class] = append(a.pool[t.class], t)
+				a.poolMu.Unlock()
+			default:
 				t.cleanup()
 			}
 		}
-		c15TmpT[3].Add(int64(time.Since(tc) / time.Millisecond))
-		c15TmpT[4].Add(int64(time.Since(t0) / time.Millisecond))
 	}()
 	errs := make([]error, len(s.Steps))
 	var twg sync.WaitGroup
 	for i, st := range s.Steps {
-		cells[i] = c15Cell{Idx: c15SessBase + s.Idx*4 + i, Cmd: st.Cmd, Conn: s.Conn, Type: c15V, Tok: st.Kind.Tok, Form: st.Kind.Form, Exp: st.Exp}
+		hist := ":first"
+		if i > 0 {
+			hist = ":after" // what the connection has carried before this command
+			for _, p := range s.Steps[:i] {
+				if p.Exp == c15Must {
+					hist += "-valid"
+				} else {
+					hist += "-bad"
+				}
+			}
+		}
+		cells[i] = c15Cell{Idx: c15SessBase + s.Idx*4 + i, Cmd: st.Cmd, Conn: s.Conn, Type: c15V, Tok: st.Kind.Tok, Form: st.Kind.Form, Exp: st.Exp,
+			Origin: "session", Label: st.Tok, History: hist}
 		if st.Cmd == "submit" {
 			continue
 		}
 		twg.Add(1)
-		go func(i int, needOutput bool) {
+		go func(i int, reuseOK bool) {
 			defer twg.Done()
-			targets[i], errs[i] = a.makeTarget(c15V, a.cellSeed(cells[i]), needOutput)
-		}(i, st.Cmd == "results")
+			targets[i], errs[i] = a.getTarget(cells[i], reuseOK)
+		}(i, a.reuse && st.Exp == c15MustNot)
 	}
 	twg.Wait()
-	c15TmpT[0].Add(int64(time.Since(t0) / time.Millisecond))
-	t1 := time.Now()
 	for _, err := range errs {
 		if err != nil {
 			return nil, "target: " + err.Error()
@@ -194,9 +215,6 @@ func (a *c15Arena) runSession(s c15Session) (obs []*c15Obs, broken string) {
 		return nil, "dial: " + err.Error()
 	}
 	defer cl.Close()
-	c15TmpT[1].Add(int64(time.Since(t1) / time.Millisecond))
-	t2 := time.Now()
-	defer func() { c15TmpT[2].Add(int64(time.Since(t2) / time.Millisecond)) }()
 	for i, st := range s.Steps {
 		c := cells[i]
 		var o *c15Obs
@@ -240,30 +258,34 @@ func (a *c15Arena) runSession(s c15Session) (obs []*c15Obs, broken string) {
 	return obs, broken
 }
 
-// judgeGiven applies an expectation given by the generator (must work / must be refused without effect).
-func (j *c15Judge) judgeGiven(o *c15Obs, keyPrefix, label, history, tab string) bool {
+// judgeGiven applies an expectation given by the generator of the cell (must work / must be refused
+// without effect); the violation key is built from the generator's labels. tab: outcome-table row ("" = none).
+func (j *c15Judge) judgeGiven(o *c15Obs, tab string) bool {
 	if o.Undecided != "" {
 		return false
 	}
 	c := o.Cell
 	effect := len(o.Effects) > 0
+	hist := strings.TrimPrefix(c.History, ":")
 	switch c.Exp {
 	case c15MustNot:
 		if effect {
-			j.run.Violation(fmt.Sprintf("%s:effect:%s:%s:%s%s", keyPrefix, c.Cmd, c.Conn, label, history),
-				fmt.Sprintf("work %s over %s for a verifying work type with token %s (%s) took effect %v (reply %q); the statement demands a refusal without effect", c.Cmd, c.Conn, label, strings.TrimPrefix(history, ":"), o.Effects, c15Trunc(o.Reply, 120)), o)
+			j.run.Violation(fmt.Sprintf("%s:effect:%s:%s:%s%s", c.Origin, c.Cmd, c.Conn, c.Label, c.History),
+				fmt.Sprintf("%s: work %s over %s for a verifying work type with token %s %s took effect %v (reply %q); the statement demands a refusal without effect", c.Origin, c.Cmd, c.Conn, c.Label, hist, o.Effects, c15Trunc(o.Reply, 120)), o)
 		}
 	case c15Must:
 		if !effect {
-			j.run.Violation(fmt.Sprintf("%s:control-refused:%s:%s:%s%s", keyPrefix, c.Cmd, c.Conn, label, history),
-				fmt.Sprintf("work %s over %s for a verifying work type with token %s (%s) had no effect (reply %q)", c.Cmd, c.Conn, label, strings.TrimPrefix(history, ":"), c15Trunc(o.Reply, 160)), o)
+			j.run.Violation(fmt.Sprintf("%s:control-refused:%s:%s:%s%s", c.Origin, c.Cmd, c.Conn, c.Label, c.History),
+				fmt.Sprintf("%s: work %s over %s for a verifying work type with token %s %s had no effect (reply %q)", c.Origin, c.Cmd, c.Conn, c.Label, hist, c15Trunc(o.Reply, 160)), o)
 		}
 	}
-	out := "no-effect"
-	if effect {
-		out = "effect"
+	if tab != "" {
+		out := "no-effect"
+		if effect {
+			out = "effect"
+		}
+		j.count(tab + ":" + c15ExpName(c.Exp) + "/" + out)
 	}
-	j.count(tab + ":" + c15ExpName(c.Exp) + "/" + out)
 	return true
 }
 
@@ -292,19 +314,7 @@ func c15DoSession(run *ev.Run, j *c15Judge, a *c15Arena, s c15Session) {
 			broken = fmt.Sprintf("step %d: %s", i+1, o.Undecided)
 			break
 		}
-		// what the connection has carried before this command
-		hist := ":first"
-		if i > 0 {
-			hist = ":after"
-			for _, p := range s.Steps[:i] {
-				if p.Exp == c15Must {
-					hist += "-valid"
-				} else {
-					hist += "-bad"
-				}
-			}
-		}
-		if j.judgeGiven(o, "session", s.Steps[i].Tok, hist, "session") {
+		if j.judgeGiven(o, "session") {
 			decided++
 		}
 		if (o.Cell.Exp == c15MustNot) == (len(o.Effects) > 0) {
@@ -382,7 +392,13 @@ func c15KeyReplacement(run *ev.Run, j *c15Judge, base, producer string, keys []*
 		return planned
 	}
 	a := &c15Arena{idx: 90, dir: filepath.Join(base, "k"), tid: "k15", rid: "none15", mint: &c15Minter{K: keys[0], Other: keys[1]}, seed: run.Seed,
-		shared: map[string]*c15Target{}, pool: map[string][]*c15Target{}, producer: producer}
+		shared: map[string]*c15Target{}, pool: map[string][]*c15Target{}, producer: producer, reuse: !full}
+	a.onLate = func(prev *c15Obs, eff []string) {
+		o := *prev
+		o.Effects = eff
+		o.Note = "effect appeared after the observation window of the command (seen when the unit was examined again)"
+		j.judgeGiven(&o, "")
+	}
 	a.pidDir = filepath.Join(a.dir, "pids")
 	_ = os.MkdirAll(a.pidDir, 0o755)
 	a.T = ctl.NewDaemon(ctl.Cfg{ID: a.tid, Dir: filepath.Join(a.dir, "T"), TCPCtl: true, Listen: true, VerifyKey: pub, LogLevel: "error",
@@ -427,7 +443,7 @@ func c15KeyReplacement(run *ev.Run, j *c15Judge, base, producer string, keys []*
 			for _, cmd := range c15Protected {
 				for ki := range keys {
 					idx++
-					kc := kcase{signer: ki, c: c15Cell{Idx: idx, Cmd: cmd, Conn: conn, Type: c15V, Tok: "other-key", Exp: c15MustNot}}
+					kc := kcase{signer: ki, c: c15Cell{Idx: idx, Cmd: cmd, Conn: conn, Type: c15V, Tok: "other-key", Exp: c15MustNot, Origin: "keyfile:" + phase}}
 					switch {
 					case ki == gen.Key:
 						kc.c.Tok, kc.c.Exp, kc.label = "valid-rs512", c15Must, "signed-by-configured-key"
@@ -436,6 +452,7 @@ func c15KeyReplacement(run *ev.Run, j *c15Judge, base, producer string, keys []*
 					default:
 						kc.label = "signed-by-never-configured-key"
 					}
+					kc.c.Label = kc.label
 					cases = append(cases, kc)
 				}
 			}
@@ -447,7 +464,7 @@ func c15KeyReplacement(run *ev.Run, j *c15Judge, base, producer string, keys []*
 		}
 		close(ch)
 		var wg sync.WaitGroup
-		for w := 0; w < 8; w++ {
+		for w := 0; w < run.Pick(4, 8); w++ {
 			wg.Add(1)
 			go func() {
 				defer wg.Done()
@@ -464,7 +481,7 @@ func c15KeyReplacement(run *ev.Run, j *c15Judge, base, producer string, keys []*
 						} else {
 							o = a.runUnitOp(kc.c, tokf)
 						}
-						ok = j.judgeGiven(o, "keyfile:"+phase, kc.label, "", "keyfile:"+phase)
+						ok = j.judgeGiven(o, "keyfile:"+phase)
 					}
 					run.Eval(1)
 					if !ok {
@@ -487,6 +504,7 @@ func c15KeyReplacement(run *ev.Run, j *c15Judge, base, producer string, keys []*
 		everConfigured[gen.Key] = true
 		run.Count("keyfile_generations", 1)
 	}
+	a.drainPool() // units that refused commands left untouched are looked at once more
 	if !a.T.Alive() {
 		fatal, top, _ := a.T.Fatal()
 		run.Inconclusive(fmt.Sprintf("daemon k15 died during the run: %s at %s; tail: %s", fatal, top, c15Trunc(a.T.OutTail(600), 600)))
